@@ -306,10 +306,27 @@ func (x FV) Resolve(stop func(*ssa.Function) bool) FV {
 
 func (x FV) ResolveTrace(stop func(*ssa.Function) bool) (FV, []FV) {
 	var trace []FV
+	up := 0
 	for i := 0; i < 24; i++ {
 		v := Strip(x.V)
 		switch y := v.(type) {
 		case *ssa.Parameter:
+			if (x.F == nil || x.F.Parent == nil) && (x.F == nil || y.Parent() == x.F.Fn) {
+				// the outermost frame: a parameter of an unexported function that is called from exactly one place
+				// takes the argument given there (the caller becomes the outer frame)
+				if site := singleCaller(y.Parent()); site != nil && resolveUp {
+					idx := paramIndex(y)
+					if idx >= 0 && idx < len(site.Common().Args) {
+						up++
+						if up > 3 {
+							return FV{v, x.F}, trace
+						}
+						x = FV{site.Common().Args[idx], &Frame{Fn: site.Parent()}}
+						continue
+					}
+				}
+				return FV{v, x.F}, trace
+			}
 			if x.F == nil || x.F.Parent == nil || y.Parent() != x.F.Fn {
 				return FV{v, x.F}, trace
 			}
@@ -468,4 +485,64 @@ func Chain(e Event) []ssa.Instruction { return chain(e) }
 
 func isErrorType(t types.Type) bool {
 	return types.Identical(t, types.Universe.Lookup("error").Type())
+}
+
+// ResolveUp is Resolve that, at the outermost frame, also follows a parameter of an unexported function with exactly
+// one call site to the argument given there.
+func (x FV) ResolveUp(stop func(*ssa.Function) bool) FV {
+	saved := resolveUp
+	resolveUp = true
+	defer func() { resolveUp = saved }()
+	r, _ := x.ResolveTrace(stop)
+	return r
+}
+
+var resolveUp bool
+
+// the program under analysis (for whole-program questions asked during value resolution)
+var program *core.Ctx
+var singleCallerCache = map[*ssa.Function]ssa.CallInstruction{}
+
+// SetProgram tells the resolver which program it works on.
+func SetProgram(c *core.Ctx) {
+	if program != c {
+		program = c
+		singleCallerCache = map[*ssa.Function]ssa.CallInstruction{}
+	}
+}
+
+// singleCaller: fn is an unexported, named module function called (synchronously, statically) from exactly one place
+// and never taken as a value.
+func singleCaller(fn *ssa.Function) ssa.CallInstruction {
+	if program == nil || fn == nil || fn.Parent() != nil || fn.Object() == nil || fn.Object().Exported() || !core.InModule(fn) {
+		return nil
+	}
+	if s, ok := singleCallerCache[fn]; ok {
+		return s
+	}
+	var site ssa.CallInstruction
+	n := 0
+	for _, g := range program.AllFuncs {
+		for _, b := range g.Blocks {
+			for _, in := range b.Instrs {
+				if call, ok := in.(ssa.CallInstruction); ok && Callee(call) == fn {
+					if _, plain := call.(*ssa.Call); plain {
+						site = call
+					}
+					n++
+					continue
+				}
+				for _, op := range in.Operands(nil) {
+					if *op == ssa.Value(fn) {
+						n += 2 // taken as a value
+					}
+				}
+			}
+		}
+	}
+	if n != 1 {
+		site = nil
+	}
+	singleCallerCache[fn] = site
+	return site
 }
